@@ -43,6 +43,9 @@ CONSTANTS
     EmitDyn,      \* Finish is offered in a concentration state (one case per system and state)
     MaxHist,      \* history generator: number of Query / Reorder operations on the built system
     MaxReorders,  \* history generator: number of Reorder operations among them
+    NameOrder,    \* the substance names of the pools in the order a name-sorting constructor form puts them
+    BuildCfgs,    \* constructor configurations [name, checked]: whether the balance check is among the checks run
+    IntegrCfgs,   \* integration configurations [name, solver, tol, c0form, tform, explicit] a case is to be run under
     UnitCfgs,     \* unit configurations a case is also to be run under (sequence of records, see UnitRec)
     Times,        \* output times handed to the integrator with each case (sequence of rationals)
     Tol           \* [atol, rtol : rationals requested from the integrator, guard : Nat, steprtol]: a result agrees
@@ -159,10 +162,16 @@ ElemKeys(s) == { s.comp[j][1] : j \in { i \in 1..Len(s.comp) : s.comp[i][1] # 0 
 Total(ss, cc, key) == QSumOver(Len(cc), LAMBDA j : QMul(Q(CompGet(ss[j], key)), cc[j]))
 (* a molecule holding a atoms of an element cannot be more concentrated than total/a; the     *)
 (* least such quotient over its elements; charge is not a supply; no element = no bound       *)
-UpperBound(ss, i, cc) ==
-    IF ElemKeys(ss[i]) = {} THEN Inf
-    ELSE QMinSet({ QDiv(Total(ss, cc, key), Q(CompGet(ss[i], key))) : key \in ElemKeys(ss[i]) })
-Bounds(ss, cc) == [i \in 1..Len(cc) |-> UpperBound(ss, i, cc)]
+(* the caller may ask to leave further keys out of consideration (skip): they bound nothing   *)
+UpperBoundSkip(ss, i, cc, skip) ==
+    LET ks == ElemKeys(ss[i]) \ skip
+    IN  IF ks = {} THEN Inf
+        ELSE QMinSet({ QDiv(Total(ss, cc, key), Q(CompGet(ss[i], key))) : key \in ks })
+UpperBound(ss, i, cc) == UpperBoundSkip(ss, i, cc, {})
+BoundsSkip(ss, cc, skip) == [i \in 1..Len(cc) |-> UpperBoundSkip(ss, i, cc, skip)]
+Bounds(ss, cc) == BoundsSkip(ss, cc, {})
+(* leaving keys out can only relax a bound *)
+SkipRelaxes(ss, cc, skip) == \A i \in 1..Len(cc) : QLe(UpperBound(ss, i, cc), UpperBoundSkip(ss, i, cc, skip))
 InBox(v, ub) == \A i \in 1..Len(v) : v[i][1] >= 0 /\ QLe(v[i], ub[i])
 (* largest h with c_i + h f_i inside [0, ub_i], per component *)
 StepLimit(f, cc, ub, i) ==
@@ -196,6 +205,19 @@ FormOK(ss, e, u, w, const) ==
 FormsComplete(ss, us) ==
     Len(us) = RankB(ss) /\ (Len(us) > 0 => LA!Rank([i \in 1..Len(us) |-> ScaleToInt(us[i])]) = Len(us))
 
+(* the same elimination offered at a numeric initial state y0: c_e = SUM a_j c_j + const,    *)
+(* a consequence of B.c = B.y0 iff u is in the row space of B and const = u.y0                *)
+FormOKAt(ss, e, u, const, y0) ==
+    /\ Norm(u[e]) = QOne
+    /\ InRowSpace(ss, u)
+    /\ Norm(const) = QSumOver(Len(u), LAMBDA j : QMul(u[j], Q(y0[j])))
+
+(* a constructor form that sorts the substances by name puts them in the order of NameOrder  *)
+NameRank(n) == CHOOSE i \in 1..Len(NameOrder) : NameOrder[i] = n
+Sortable(ss) == \A i \in 1..Len(ss) : \E j \in 1..Len(NameOrder) : NameOrder[j] = ss[i].name
+SortPerm(ss) == IF ~Sortable(ss) THEN <<>>
+                ELSE SortSeq([i \in 1..Len(ss) |-> i], LAMBDA a, b : NameRank(ss[a].name) < NameRank(ss[b].name))
+
 ------------------------------------------------------------------------------
 Init ==
     /\ subs = <<>> /\ rxns = <<>> /\ built = "none" /\ c = <<>> /\ c0 = <<>>
@@ -217,6 +239,13 @@ Build ==
     /\ stage = "rxn"
     /\ built' = IF Accept(subs, rxns) THEN "accepted" ELSE "rejected"
     /\ stage' = IF Accept(subs, rxns) THEN "built" ELSE "done"
+    /\ UNCHANGED <<subs, rxns, c, c0, nsteps, last, hist>>
+
+(* construction with the balance check switched off (dont_check / checks without "balance"):  *)
+(* anything is constructed; whether the system is balanced can then be asked (CheckBalance)   *)
+BuildUnchecked ==
+    /\ stage = "rxn"
+    /\ built' = "unchecked" /\ stage' = "built"
     /\ UNCHANGED <<subs, rxns, c, c0, nsteps, last, hist>>
 
 SetState(cc) ==
@@ -324,7 +353,7 @@ GenEdge ==
           /\ i # j /\ Multiple(i, j) > 0 /\ EdgeRank(i, j) > LastRank
           /\ AddReaction(EdgeRxn(i, j, Pow10Q(e)))
 
-GenSetState == stage = "built" /\ hist = <<>> /\ \E cc \in States : SetState(cc)
+GenSetState == stage = "built" /\ built = "accepted" /\ hist = <<>> /\ \E cc \in States : SetState(cc)
 GenEulerStep == nsteps < MaxSteps /\ last # "safe" /\ \E h \in Steps : EulerStep(h)
 GenSafeStep == MaxSteps > 0 /\ nsteps = 0 /\ SafeStep
 GenFinish == /\ (MaxHist > 0 => LastOp = "query")
@@ -350,7 +379,7 @@ InDyn == stage = "dyn"
 
 TypeOK ==
     /\ stage \in {"subst", "rxn", "built", "dyn", "done"}
-    /\ built \in {"none", "accepted", "rejected"}
+    /\ built \in {"none", "accepted", "rejected", "unchecked"}
     /\ last \in {"none", "set", "euler", "safe"}
     /\ \A i \in 1..Len(rxns) : IsRxn(rxns[i], NS)
 
@@ -404,6 +433,10 @@ BoundDominatesGrid ==
             tot == [r \in 1..Len(B) |-> LA!Dot(B[r], ci)]
         IN  \A x \in States :
                 (\A r \in rows : LA!Dot(B[r], x) = tot[r]) => \A i \in 1..NS : QLe(Q(x[i]), ub[i])
+(* leaving further keys out of a bounds query never tightens a bound *)
+SkipKeysRelax ==
+    (InDyn /\ last = "set") =>
+        \A k \in KeysOf(subs) : SkipRelaxes(subs, c0, {k})
 (* first-order systems: the generator matrix is the right-hand side *)
 GeneratorIsRhs ==
     (InDyn /\ last = "set" /\ FirstOrder(rxns)) => QMatVec(GenMatrix(rxns, NS), c) = F(rxns, c)
@@ -509,6 +542,15 @@ UnitTextRoundTrip ==
 
 (* Observations of the dynamics are made on the system restricted to its used substances     *)
 (* (the ODE builder of the library needs every substance to take part in a reaction).         *)
+(* the keys a bounds query is also made without: charge and the heaviest element *)
+SkipSeq(ss) == LET es == KeysOf(ss) \ {0}
+               IN  IF es = {} THEN <<0>> ELSE <<0, CHOOSE k \in es : \A l \in es : l <= k>>
+(* integration configurations that apply: an explicit solver only where the fastest pseudo    *)
+(* first-order rate times the last output time stays within its step budget                   *)
+PseudoRate(r, sc) == QMul(r.k, QPow(sc, Order(r) - 1))
+ExplicitOK(rs, sc) == \A j \in 1..Len(rs) :
+                          QLe(QMul(PseudoRate(rs[j], sc), Times[Len(Times)]), <<2000, 1>>)
+ApplicableCfgs(rs, sc) == SelectSeq(IntegrCfgs, LAMBDA g : ~g.explicit \/ ExplicitOK(rs, sc))
 DynRec(ss, rs, cc) ==
     IF cc = <<>> THEN [has |-> FALSE]
     ELSE LET f == F(rs, cc)
@@ -516,24 +558,26 @@ DynRec(ss, rs, cc) ==
              fin == { b \in SeqRange(ub) : ~IsInf(b) /\ b[1] > 0 }
              h == QMinSetSafe({ StepLimit(f, cc, ub, i) : i \in 1..Len(cc) } \cup {StepCap})
          IN  [ has |-> TRUE, c0 |-> [i \in 1..Len(cc) |-> cc[i][1]], f |-> f, totals |-> BTimes(ss, cc),
-               ub |-> ub, scale |-> IF fin = {} THEN QOne ELSE QMaxSet(fin), h |-> h,
-               after |-> [i \in 1..Len(cc) |-> QAdd(cc[i], QMul(h, f[i]))] ]
+               ub |-> ub, skip |-> SkipSeq(ss), ubskip |-> BoundsSkip(ss, cc, SeqRange(SkipSeq(ss))),
+               scale |-> IF fin = {} THEN QOne ELSE QMaxSet(fin), h |-> h,
+               after |-> [i \in 1..Len(cc) |-> QAdd(cc[i], QMul(h, f[i]))],
+               icfgs |-> ApplicableCfgs(rs, IF fin = {} THEN QOne ELSE QMaxSet(fin)) ]
 RedRec ==
     LET us == UsedSeq(rxns, NS)
         ss == RedSubs(subs, us)
         rs == RedRxns(rxns, us)
         cc == IF c0 = <<>> THEN <<>> ELSE RestrictVec(c0, us)
-    IN  [ subs |-> ss, rxns |-> rs, keys |-> KeySeq(ss), B |-> BMatrix(ss), poly |-> RhsPoly(rs, Len(ss)),
+    IN  [ subs |-> ss, rxns |-> rs, keys |-> KeySeq(ss), B |-> BMatrix(ss), sortperm |-> SortPerm(ss), poly |-> RhsPoly(rs, Len(ss)),
           G |-> IF FirstOrder(rs) THEN GenMatrix(rs, Len(ss)) ELSE <<>>,
           dyn |-> DynRec(ss, rs, cc),
           units |-> IF cc = <<>> THEN <<>> ELSE [i \in 1..Len(UnitCfgs) |-> UnitRec(ss, rs, cc, UnitCfgs[i])] ]
 CaseRec ==
     [ in  |-> [ subs |-> Subs0, rxns |-> Rxns0, lines |-> SysLines(Subs0, Rxns0), hist |-> hist,
                 c0 |-> IF c0 = <<>> THEN <<>> ELSE [i \in 1..NS |-> c0[i][1]],
-                tout |-> Times, tol |-> Tol ],
+                tout |-> Times, tol |-> Tol, cfgs |-> BuildCfgs, sortperm |-> SortPerm(Subs0) ],
       cls |-> Class,
       exp |-> IF built = "rejected"
-              THEN [ accept |-> FALSE, viol |-> [i \in 1..Len(rxns) |-> ViolSeq(rxns[i])],
+              THEN [ accept |-> FALSE, keys |-> KeySeq(subs), viol |-> [i \in 1..Len(rxns) |-> ViolSeq(rxns[i])],
                      anyviol |-> SetToSortSeq(AllViolatedKeys(subs, rxns), <) ]
               ELSE [ accept |-> TRUE, keys |-> KeySeq(subs), B |-> BMatrix(subs), N |-> NetMatrix(rxns),
                      rank |-> RankB(subs), red |-> RedRec ] ]
